@@ -410,4 +410,17 @@ package zygo
 // What a sandboxed interpreter can enter: its constructor (which installs the
 // restricted builtin table), the standard setup the command-line tool applies,
 // and the evaluation entry points (compiler, VM and everything they call).
-//@ effects C08 roots NewZlispSandbox, (*Zlisp).StandardSetup, (*Zlisp).EvalString, (*Zlisp).LoadString, (*Zlisp).LoadExpressions, (*Zlisp).Run, (*Zlisp).EvalExpressions, (*Zlisp).ParseStream
+//@ effects C08 roots NewZlispSandbox, (*Zlisp).StandardSetup, (*Zlisp).EvalString, (*Zlisp).LoadString, (*Zlisp).LoadExpressions, (*Zlisp).Run, (*Zlisp).EvalExpressions
+
+// The sandbox flag is set by the sandbox constructor and inherited by copies;
+// nothing else writes it.
+//@ stable C08 Zlisp | sandboxed | NewZlispSandbox, (*Zlisp).Clone, (*Zlisp).Duplicate
+//@ func (*Zlisp).Duplicate
+//@ C08 ensures inherits-sandbox: r0.sandboxed == old(env.sandboxed)
+//@ func (*Zlisp).Clone
+//@ C08 ensures inherits-sandbox: r0.sandboxed == old(env.sandboxed)
+//@ func NewZlispSandbox
+//@ C08 ensures sandboxed: r0.sandboxed
+// The two places that can reach the world do so only in a non-sandboxed interpreter.
+//@ effects C08 guarded (*Generator).GenerateInclude unless gen.env.sandboxed
+//@ effects C08 guarded (*Zlisp).ImportPackageBuilder unless env.sandboxed
